@@ -22,6 +22,20 @@ import (
 func calleeName(call ssa.CallInstruction) string {
 	cc := call.Common()
 	if cc.IsInvoke() {
+		// a call through a package-level variable of an (unexported, module-declared) interface type that only ever
+		// holds the value its initialiser gives it (var upstreamClient httpDoer = &http.Client{…} — a seam for
+		// tests): the call is a call of that value's method
+		if u, ok := cc.Value.(*ssa.UnOp); ok && u.Op == token.MUL {
+			if g, ok := u.X.(*ssa.Global); ok {
+				if t := globalIfaceConcrete(g); t != nil {
+					if sel := types.NewMethodSet(t).Lookup(cc.Method.Pkg(), cc.Method.Name()); sel != nil {
+						if fo, ok := sel.Obj().(*types.Func); ok {
+							return stripTypeArgs(fo.FullName())
+						}
+					}
+				}
+			}
+		}
 		return stripTypeArgs(cc.Method.FullName())
 	}
 	switch v := cc.Value.(type) {
@@ -1196,6 +1210,78 @@ func callAcctKind(call ssa.CallInstruction) string {
 	return ""
 }
 
+// compositeAcct: f does nothing but call accounting helpers with its own parameters (accountRemoved(counter, size)
+// = decrementCacheEntries() + decrementCacheSize(counter, size)). Returns, per accounting kind it performs, the
+// index of f's parameter that is handed on as the size (-1 if the kind takes none).
+func compositeAcct(f *ssa.Function) map[string]int {
+	if f == nil || f.Blocks == nil || originPkgPath(f) != "reservoir/cache" || len(f.Blocks) != 1 || acctKind(f) != "" {
+		return nil
+	}
+	out := map[string]int{}
+	ok := true
+	for _, in := range f.Blocks[0].Instrs {
+		switch x := in.(type) {
+		case *ssa.Call:
+			k := callAcctKind(x)
+			if k == "" {
+				ok = false
+				continue
+			}
+			idx := -1
+			if len(x.Call.Args) == 2 {
+				for pi, q := range f.Params {
+					if unconv(x.Call.Args[1]) == ssa.Value(q) {
+						idx = pi
+					}
+				}
+				if idx < 0 {
+					ok = false
+				}
+			}
+			out[k] = idx
+		case *ssa.Return, *ssa.DebugRef:
+		default:
+			ok = false
+		}
+	}
+	if !ok || len(out) == 0 {
+		return nil
+	}
+	return out
+}
+
+// acctKindsOfCall: the accounting effects of a call: one for a plain accounting helper, several for a composite one.
+func acctKindsOfCall(call ssa.CallInstruction) []string {
+	if k := callAcctKind(call); k != "" {
+		return []string{k}
+	}
+	if sc := staticCallee(call); sc != nil {
+		var ks []string
+		for k := range compositeAcct(unwrapSynthetic(sc)) {
+			ks = append(ks, k)
+		}
+		sort.Strings(ks)
+		return ks
+	}
+	return nil
+}
+
+// acctSizeArg: the argument of call that is the size added / subtracted for kind.
+func acctSizeArg(call *ssa.Call, kind string) ssa.Value {
+	if callAcctKind(call) == kind {
+		if len(call.Call.Args) == 2 {
+			return call.Call.Args[1]
+		}
+		return nil
+	}
+	if sc := staticCallee(call); sc != nil {
+		if idx, ok := compositeAcct(unwrapSynthetic(sc))[kind]; ok && idx >= 0 && idx < len(call.Call.Args) {
+			return call.Call.Args[idx]
+		}
+	}
+	return nil
+}
+
 // factStrsCtx: the facts holding at site, plus the facts that hold at EVERY call
 // site of the enclosing function (transitively, bounded), translated into the
 // callee's vocabulary (caller argument expressions are rewritten to "$param").
@@ -2140,4 +2226,85 @@ func deepMarker(base func(ssa.Instruction) bool, depth int) func(ssa.Instruction
 		return len(exitsFromEntryAvoiding(h, isM, nil)) == 0
 	}
 	return self
+}
+
+// argOf: the argument a call passes for the callee's parameter that the rules know as name (parameters of
+// unexported functions get reordered; names survive, see pname); the argument at index fallback if the callee
+// cannot be resolved or has no such parameter. Indexes count the receiver, as call.Common().Args / fn.Params do
+// for static calls.
+func argOf(call ssa.CallInstruction, name string, fallback int) ssa.Value {
+	args := call.Common().Args
+	if g := unwrapSynthetic(staticCallee(call)); g != nil && len(g.Params) == len(args) {
+		for i, p := range g.Params {
+			if pname(p) == name {
+				return args[i]
+			}
+		}
+	}
+	if fallback < len(args) {
+		return args[fallback]
+	}
+	return nil
+}
+
+var globalIfaceMemo = map[*ssa.Global]types.Type{}
+
+// globalIfaceConcrete: the concrete type of the one value a package-level interface variable holds (assigned by the
+// package initialiser, never written anywhere else in its package); nil if there is no such type.
+func globalIfaceConcrete(g *ssa.Global) types.Type {
+	if t, done := globalIfaceMemo[g]; done {
+		return t
+	}
+	globalIfaceMemo[g] = nil
+	if g.Pkg == nil || !isModPath(g.Pkg.Pkg.Path()) {
+		return nil
+	}
+	if _, isI := g.Type().(*types.Pointer).Elem().Underlying().(*types.Interface); !isI {
+		return nil
+	}
+	var val types.Type
+	n := 0
+	scan := func(f2 *ssa.Function, isInit bool) {
+		eachInstr(f2, func(in ssa.Instruction) {
+			if st, ok := in.(*ssa.Store); ok && st.Addr == ssa.Value(g) {
+				n++
+				if mi, ok := st.Val.(*ssa.MakeInterface); ok && isInit {
+					val = mi.X.Type()
+				} else {
+					n += 100
+				}
+			}
+		})
+	}
+	for _, m := range g.Pkg.Members {
+		switch x := m.(type) {
+		case *ssa.Function:
+			var all []*ssa.Function
+			var collect func(f *ssa.Function)
+			collect = func(f *ssa.Function) {
+				all = append(all, f)
+				for _, a := range f.AnonFuncs {
+					collect(a)
+				}
+			}
+			collect(x)
+			for _, f2 := range all {
+				scan(f2, x.Name() == "init")
+			}
+		case *ssa.Type:
+			for _, recv := range []types.Type{x.Type(), types.NewPointer(x.Type())} {
+				ms := g.Pkg.Prog.MethodSets.MethodSet(recv)
+				for i := 0; i < ms.Len(); i++ {
+					if mf := g.Pkg.Prog.MethodValue(ms.At(i)); mf != nil && mf.Blocks != nil {
+						scan(mf, false)
+					}
+				}
+			}
+		}
+	}
+	if n == 1 && val != nil {
+		globalIfaceMemo[g] = val
+		return val
+	}
+	return nil
 }
